@@ -498,37 +498,148 @@ theorem C20_model_is_source [DecidableEq α] (E : Sync.Env α) (d : Nat) (k : KW
     (∀ op, cascadeK E d k p (.mutate op) = lift k (cascade (applyMutate E) d k.w p op)) :=
   ⟨fun v => cascadeK_assign E d k p v hq, fun op => cascadeK_mutate E d k p op hq⟩
 
-/-! ### Partner death during a propagation (known finding F97) -/
+/-! ### Partner death during a propagation (finding F97, repaired by 8e10b05) -/
 
-/-- The statement at full strength: `C20_lock_released` for histories in which a
-change handler of one partner drops the last reference to another partner. -/
-def C20_lock_released_full : Prop :=
-  ∀ (E : Sync.Env Int) (k : KWorld Int) (cs : List (CmdK Int)), k.w.locked = [] → (runK E k cs).w.locked = []
+/-- **Lock released, nothing escapes — also when partners die mid-propagation.**
+`C20_lock_released` at full strength: for every history of commands *and armed
+triggers* (a change handler of one partner drops the last reference to another
+object while the propagation is running), started with empty lock tables, the
+lock tables are empty after the history and no exception escaped a
+synchronisation handler (the count of swallowed exceptions is what it was).
+Before fix 8e10b05 this was false (the handlers iterated the live dict:
+`RuntimeError`, lock left set); the regression example below is the former
+witness. -/
+theorem C20_lock_released_full [DecidableEq α] (E : Sync.Env α) (k : KWorld α) (cs : List (CmdK α))
+    (h : k.w.locked = []) :
+    (runK E k cs).w.locked = [] ∧ (runK E k cs).swallowed = k.swallowed :=
+  runK_rest E cs k ⟨h, rfl⟩
+
+/-- **Lock released (any nested call, any deaths).** A propagation started on an
+unlocked trait — at any depth, in any state, whatever is collected meanwhile —
+returns with the lock tables it found and swallows nothing. -/
+theorem C20_lock_released_nested_full [DecidableEq α] (E : Sync.Env α) (d : Nat) (k k' : KWorld α) (p : Pair)
+    (req : Req α) (r : Option α) (hp : p ∉ k.w.locked) (h : cascadeK E d k p req = .ok (k', r)) :
+    k'.w.locked = k.w.locked ∧ k'.swallowed = k.swallowed :=
+  cascadeK_calm E d k p req k' r hp h
+
+/-- **Survivors are updated.** A hub: every link that does not start at `p` leads
+to `p` (partners linked one-way or mutually, none of them linked further).  From
+any state with empty lock tables in which no table lists a collected object, with
+any triggers armed: if `p`'s own trait makes `y` of the assigned value and this is
+a change, then `obj.p = v` raises nothing, `p` holds `y`, the lock tables are
+empty — and **every partner still in `p`'s table after the command** (i.e. not
+collected while the propagation ran) whose trait stores `y` unchanged holds `y`,
+whichever partners died in between and wherever in the loop. -/
+theorem C20_survivors_updated [DecidableEq α] (E : Sync.Env α) (k : KWorld α) (p : Pair) (v y : AVal α)
+    (hL : k.w.locked = []) (hv : validate E p v = .ok y) (hchg : y ≠ k.w.val p)
+    (htidy : ∀ e ∈ k.w.edges, e.dst.1 ∉ k.dead) (hself : p ∉ k.w.partners p)
+    (hback : ∀ e ∈ k.w.edges, e.src ≠ p → e.dst = p)
+    (q : Pair) (hqv : validate E q y = .ok y) :
+    (assignK E k p v).exc = none ∧ (assignK E k p v).world.w.val p = y ∧
+    (assignK E k p v).world.w.locked = [] ∧
+    ((⟨p, q⟩ : Edge) ∈ (assignK E k p v).world.w.edges → (assignK E k p v).world.w.val q = y) := by
+  -- one level of `cascadeK`
+  have htop : ∀ d, cascadeK E (d + 1) k p (.assign v) =
+      .ok (swallow (handlerK (cascadeK E d) (.assign y)
+        (fire { k with w := { k.w with val := upd k.w.val p y, nChg := upd k.w.nChg p (k.w.nChg p + 1) } } p) p),
+        none) := by
+    intro d
+    have hn : notified k.w { k.w with val := upd k.w.val p y, nChg := upd k.w.nChg p (k.w.nChg p + 1) } p
+        = true := by simp [notified, upd]
+    rw [cascadeK]
+    simp only [applyK, applyAssign, hv, hchg, if_false, Option.map_some, hn, if_true, runHandlerK, handlerModified]
+  have hk0 : Shrink k { k with w := { k.w with val := upd k.w.val p y, nChg := upd k.w.nChg p (k.w.nChg p + 1) } } :=
+    ⟨rfl, fun _ h => h, fun h => h⟩
+  obtain ⟨k1, htop, hf, hfv⟩ : ∃ k1 : KWorld α,
+      (∀ d, cascadeK E (d + 1) k p (.assign v) =
+        .ok (swallow (handlerK (cascadeK E d) (.assign y) k1 p), none)) ∧
+      Shrink k k1 ∧ k1.w.val = upd k.w.val p y :=
+    ⟨_, htop, hk0.trans (fire_shrink _ p).1, (fire_shrink _ p).2⟩
+  have hk1L : k1.w.locked = [] := by rw [hf.locked]; exact hL
+  have hk1E : ∀ e ∈ k1.w.edges, e ∈ k.w.edges := fun e he => hf.edges e he
+  have hk1T : Tidy k1 := hf.tidy htidy
+  have hk1p : k1.w.val p = y := by rw [hfv]; simp [upd]
+  unfold assignK World.budget
+  rw [htop]
+  by_cases hemp : (k1.w.partners p).isEmpty = true
+  · have : handlerK (cascadeK E k.w.edges.length) (.assign y) k1 p = (k1, none) := by unfold handlerK; simp [hemp]
+    rw [this]
+    refine ⟨rfl, hk1p, hk1L, fun he => ?_⟩
+    have : q ∈ k1.w.partners p := mem_partners_iff.mpr he
+    simp [List.isEmpty_iff.mp hemp] at this
+  · -- some partner is left: the budget is at least 2
+    obtain ⟨d, hd⟩ : ∃ d, k.w.edges.length = d + 1 := by
+      cases hP : k1.w.partners p with
+      | nil => simp [hP] at hemp
+      | cons t ts =>
+        have : (⟨p, t⟩ : Edge) ∈ k.w.edges := hk1E _ (mem_partners_iff.mp (by rw [hP]; exact List.mem_cons_self ..))
+        exact ⟨k.w.edges.length - 1, by have := List.length_pos_of_mem this; omega⟩
+    rw [hd]
+    obtain ⟨hs, hfr, hsurv⟩ := foldK_survivor E d y p q hqv k.w.edges hback (k1.w.partners p)
+      { k1 with w := k1.w.lock p } (fun l => by simp [World.lock, hk1L]) hk1E hk1T
+      (fun h => hself (mem_partners_iff.mpr (hk1E _ (mem_partners_iff.mp h))))
+    have hin : p ∈ (List.foldl (visitK (cascadeK E (d + 1)) (.assign y)) { k1 with w := k1.w.lock p }
+        (k1.w.partners p)).w.locked := by rw [hs.locked]; simp [World.lock]
+    have hH : handlerK (cascadeK E (d + 1)) (.assign y) k1 p =
+        ({ (List.foldl (visitK (cascadeK E (d + 1)) (.assign y)) { k1 with w := k1.w.lock p } (k1.w.partners p)) with
+            w := (List.foldl (visitK (cascadeK E (d + 1)) (.assign y)) { k1 with w := k1.w.lock p }
+              (k1.w.partners p)).w.unlock p }, none) := by
+      unfold handlerK
+      rw [if_neg hemp]
+      simp only [hin, if_true]
+    rw [hH]
+    refine ⟨rfl, ?_, ?_, ?_⟩
+    · show (List.foldl (visitK (cascadeK E (d + 1)) (.assign y)) { k1 with w := k1.w.lock p }
+          (k1.w.partners p)).w.val p = y
+      rw [hfr p (fun h => hself (mem_partners_iff.mpr (hk1E _ (mem_partners_iff.mp h))))]
+      exact hk1p
+    · show (World.unlock _ p).locked = []
+      unfold World.unlock
+      simp only
+      rw [hs.locked]
+      simp [World.lock, hk1L]
+    · intro he
+      have he' : (⟨p, q⟩ : Edge) ∈ (List.foldl (visitK (cascadeK E (d + 1)) (.assign y))
+          { k1 with w := k1.w.lock p } (k1.w.partners p)).w.edges := he
+      exact hsurv he' (Or.inl (mem_partners_iff.mpr (hs.edges _ he')))
 
 /-- `a.sync_trait('y', c, mutual=False); a.sync_trait('y', b)`; a handler on `b.y`
-drops the last reference to `c`; `a.y = 9`. -/
+drops the last reference to `c`; `a.y = 9` — the history that showed F97. -/
 def dyingPartner : List (CmdK Int) :=
   [.cmd (.link (0, "y") (2, "y") false), .cmd (.link (0, "y") (1, "y") true), .arm (1, "y") 2,
    .cmd (.assign (0, "y") (.s 9))]
 
-/-- **Negation witness (known finding F97).** The handler iterates the live dict
-`info[name].values()`; the partner's death shrinks it, the next step of the loop
-raises `RuntimeError` out of the handler, and `del locked[name]` is never
-reached: the lock of `a.y` stays set — and a later change of the mutual partner
-`b.y` no longer reaches `a.y`.  Replayed on the implementation by corpus and
-generated cases (`kd`). -/
-theorem C20_lock_stuck_when_partner_dies_mid_loop : ¬ C20_lock_released_full := by
-  intro h
-  have := h idEnv { w := fresh } dyingPartner rfl
-  revert this
+/-- Regression (former witness of F97): the repaired handlers do not exhibit it —
+`c` is collected during the propagation, no lock is left, nothing is swallowed,
+the surviving partner holds the new value and its later change comes back. -/
+example :
+    (runK idEnv { w := fresh } dyingPartner).w.locked = [] ∧
+    (runK idEnv { w := fresh } dyingPartner).swallowed = 0 ∧
+    (runK idEnv { w := fresh } dyingPartner).dead = [2] ∧
+    (runK idEnv { w := fresh } dyingPartner).w.val (1, "y") = .s 9 ∧
+    (runK idEnv { w := fresh } (dyingPartner ++ [.cmd (.assign (1, "y") (.s 5))])).w.val (0, "y") = .s 5 := by
   decide
 
-/-- What the model (and the implementation) computes on the witness. -/
-theorem C20_dying_partner_outcome :
-    (runK idEnv { w := fresh } dyingPartner).w.locked = [(0, "y")] ∧
-    (runK idEnv { w := fresh } dyingPartner).swallowed = 1 ∧
-    (runK idEnv { w := fresh } dyingPartner).dead = [2] ∧
-    (runK idEnv { w := fresh } (dyingPartner ++ [.cmd (.assign (1, "y") (.s 5))])).w.val (0, "y") = .s 9 := by
+/-- A victim the hub's loop has not reached yet: it is skipped, the partners after
+it are still updated (`a` → `b`, `c`, `d` one-way; `b`'s handler drops `c`). -/
+example :
+    let h : List (CmdK Int) :=
+      [.cmd (.link (0, "y") (1, "y") false), .cmd (.link (0, "y") (2, "y") false),
+       .cmd (.link (0, "y") (3, "y") false), .arm (1, "y") 2, .cmd (.assign (0, "y") (.s 9))]
+    (runK idEnv { w := fresh } h).dead = [2] ∧ (runK idEnv { w := fresh } h).w.locked = [] ∧
+    (runK idEnv { w := fresh } h).w.val (1, "y") = .s 9 ∧ (runK idEnv { w := fresh } h).w.val (3, "y") = .s 9 := by
+  decide
+
+/-- Non-vacuity of `C20_survivors_updated`: its hypotheses hold in the state before
+the assignment of the history above (hub `a.y` with three one-way partners, a
+trigger armed on `b.y` that drops `c`). -/
+example :
+    let k := runK idEnv { w := fresh }
+      [.cmd (.link (0, "y") (1, "y") false), .cmd (.link (0, "y") (2, "y") false),
+       .cmd (.link (0, "y") (3, "y") false), .arm (1, "y") 2]
+    k.w.locked = [] ∧ k.doom = [((1, "y"), 2)] ∧ (∀ e ∈ k.w.edges, e.dst.1 ∉ k.dead) ∧
+    (0, "y") ∉ k.w.partners (0, "y") ∧ (∀ e ∈ k.w.edges, e.src ≠ (0, "y") → e.dst = (0, "y")) ∧
+    validate idEnv (0, "y") (.s 9) = .ok (.s 9) ∧ (AVal.s 9 : AVal Int) ≠ k.w.val (0, "y") := by
   decide
 
 /-- Non-vacuity of `C20_model_is_source`: the state before the trigger is armed is
